@@ -29,6 +29,10 @@ type Stream struct {
 	DeferRead  func() bool    // nil = inline
 	DeferWrite func() bool    // nil = inline
 	Accept     func(n int) int // blocking Write: bytes accepted of n (nil = all)
+	// AsyncAccept: bytes one attempt of an asynchronous write takes of the n that are left (nil = all). A plain
+	// AsyncWrite completes with what the first attempt took (that is its contract); an AsyncWriteAll stays in flight
+	// and takes more with every StepWrite until everything is out.
+	AsyncAccept func(n int) int
 	WriteErr   func() error   // consulted before every write; non-nil fails the write having taken nothing
 
 	PendingRead  *pendingOp
@@ -155,34 +159,44 @@ func (s *Stream) completeWrite() bool {
 	if p == nil {
 		return false
 	}
-	s.PendingWrite = nil
 	if s.WriteErr != nil {
 		if err := s.WriteErr(); err != nil {
-			p.cb(err, 0)
+			s.PendingWrite = nil
+			p.cb(err, p.got)
 			return true
 		}
 	}
 	// the bytes are taken from the caller's slice now: a buffer mutated while the write was in flight
 	// shows on the wire exactly as it would with a real socket
-	s.Out = append(s.Out, p.b...)
-	p.cb(nil, len(p.b))
+	rem := p.b[p.got:]
+	k := len(rem)
+	if s.AsyncAccept != nil {
+		k = s.AsyncAccept(len(rem))
+	}
+	s.Out = append(s.Out, rem[:k]...)
+	p.got += k
+	if p.all && p.got < len(p.b) {
+		return true // progress; the rest waits for the next step
+	}
+	s.PendingWrite = nil
+	p.cb(nil, p.got)
 	return true
 }
 
-func (s *Stream) asyncWrite(b []byte, cb sonic.AsyncCallback) {
+func (s *Stream) asyncWrite(b []byte, all bool, cb sonic.AsyncCallback) {
 	s.Writes++
 	if s.PendingWrite != nil {
 		s.Overlap = "write"
 	}
-	s.PendingWrite = &pendingOp{b: b, cb: cb}
+	s.PendingWrite = &pendingOp{b: b, cb: cb, all: all}
 	if s.DeferWrite != nil && s.DeferWrite() {
 		return
 	}
 	s.completeWrite()
 }
 
-func (s *Stream) AsyncWrite(b []byte, cb sonic.AsyncCallback)    { s.asyncWrite(b, cb) }
-func (s *Stream) AsyncWriteAll(b []byte, cb sonic.AsyncCallback) { s.asyncWrite(b, cb) }
+func (s *Stream) AsyncWrite(b []byte, cb sonic.AsyncCallback)    { s.asyncWrite(b, false, cb) }
+func (s *Stream) AsyncWriteAll(b []byte, cb sonic.AsyncCallback) { s.asyncWrite(b, true, cb) }
 
 // StepRead / StepWrite complete a deferred operation (one "poll cycle" of the scripted transport).
 func (s *Stream) StepRead() bool  { return s.tryCompleteRead() }
@@ -208,7 +222,7 @@ func (s *Stream) Cancel() {
 	}
 	if p := s.PendingWrite; p != nil {
 		s.PendingWrite = nil
-		p.cb(sonicerrors.ErrCancelled, 0)
+		p.cb(sonicerrors.ErrCancelled, p.got)
 	}
 }
 
